@@ -726,6 +726,10 @@ class EbuildProcessor:
                     self.ebd_write.close()
                     self.ebd_read.close()
                     kill = False
+                else:
+                    # alive but not answering (or out of sync): it will never
+                    # exit on its own, waiting for it would block forever
+                    kill = bool(self.pid)
             except (OSError, ValueError):
                 kill = self.pid is not None
 
